@@ -195,6 +195,29 @@ class Model(SOCModel):
                                                         affine_aux[s],
                                                         1, affine_in[s])
                             more_exp.append(exp_cone_constr)
+                    elif constr.xtype in 'XL' and constr.params is not None:
+                        # sum of exp() / log() terms: one auxiliary variable
+                        # per term, the sum of them in a linear constraint
+                        affine_out = constr.affine_out * (1/constr.multiplier)
+                        affine_in = constr.affine_in
+                        aux_var = self.dvar(affine_in.shape, aux=True)
+                        aux_sum = aux_var.to_affine().sum(axis=constr.params[1])
+                        if constr.xtype == 'X':
+                            self.aux_constr.append(aux_sum + affine_out <= 0)
+                        else:
+                            self.aux_constr.append(affine_out - aux_sum <= 0)
+                        affine_aux = aux_var.to_affine().reshape((affine_in.size, ))
+                        affine_in = affine_in.reshape((affine_in.size, ))
+                        for s in range(affine_in.size):
+                            if constr.xtype == 'X':
+                                exp_cone_constr = ExpConstr(constr.model,
+                                                            affine_in[s],
+                                                            affine_aux[s], 1)
+                            else:
+                                exp_cone_constr = ExpConstr(constr.model,
+                                                            affine_aux[s],
+                                                            affine_in[s], 1)
+                            more_exp.append(exp_cone_constr)
                     elif constr.xtype == 'X':
                         affine_out = constr.affine_out * (1/constr.multiplier)
                         exprs_list = rso_broadcast(constr.affine_in, affine_out)
